@@ -303,32 +303,93 @@ def rule_twopass(c, prog):
         c.violation(R, "writer|allocator", f"referent numbers are allocated outside EmitState::map_id: {sorted(users)}", "", instance="writer:map_id-sole-allocator")
 
 
+def C02_contains(t, sub):
+    if t == sub:
+        return True
+    if isinstance(t, tuple):
+        return any(C02_contains(x, sub) for x in t)
+    return False
+
+
 def rule_name(c, prog):
     R = "C02.name"
     c.rule(R, "Name is written from instance.name through the String type and read back into the instance name; character data is written as CDATA exactly when it has leading or trailing whitespace (the case the whitespace-dropping reader would lose); read_characters joins every adjacent Characters/CData event")
     fn = prog.fn("rbx_xml::serializer_core::write_characters_or_cdata")
+    # decided over all 16 valuations of {first char exists, it is whitespace, last char exists, it is whitespace}: the
+    # function writes CDATA exactly when (first exists and is whitespace) or (last exists and is whitespace).  The
+    # decision is read off the symbolic events, so match / map_or / if-let spellings are all the same thing.
+    import itertools
+    from sa import sym, wire
+
+    def p_write(I, n, path, arg_nodes, env):
+        args = [I.eval(a, env) for a in arg_nodes]
+        I.emit(("sink", "write", ("tup", tuple(args)), core.loc(n)))
+        return sym.var(sym.OK, sym.UNIT)
     ok = False
-    m = None
-    lets = {st["pat"].get("lid"): st["init"] for st in core.walk_lets(fn.body) if "init" in st and st["pat"].get("k") == "Binding"}
-    for n in core.walk_fn(fn):
-        if n.get("k") == "If" and "f" in n:
-            t = [core.callee(x) for x in core.walk(n["t"]) if x.get("k") == "Call"]
-            f = [core.callee(x) for x in core.walk(n["f"]) if x.get("k") == "Call"]
-            if any(x and x.endswith("::cdata") for x in t) and any(x and x.endswith("::characters") for x in f):
-                ok = True
-                cnd = core.strip(n["c"])
-                # the decision: the condition itself, or the let it names
-                m = core.strip(lets[cnd["lid"]]) if cnd.get("k") == "Path" and cnd.get("lid") in lets else cnd
-    rows = {}
-    if m and m.get("k") == "Match":
-        for arm in m["arms"]:
-            rows[core.pat_str(arm["pat"])] = core.fingerprint(arm["body"], 4)
-    want = {"(Option::Some(first), Option::Some(last))": "(first.is_whitespace()||last.is_whitespace())"}
-    ok = ok and rows.get("(Option::Some(first), Option::Some(last))") == want["(Option::Some(first), Option::Some(last))"] and rows.get("(Option::None, Option::None)") == "False"
+    why = ""
+    try:
+        vt = ("in", "value")
+        env = {prm["lid"]: (vt if (prm.get("ty") or "").lstrip("&").strip() == "str" else ("in", prm["name"])) for prm in fn.params}
+        I, val, ex = wire.run_region(prog, fn.body, env, [(re.compile(r"EventWriter::<W>::write$"), p_write)], depth=4)
+
+        def find_opts(t, out):
+            if isinstance(t, (tuple, list)) and t:
+                if isinstance(t, tuple) and t[0] == "app" and isinstance(t[1], str) and t[1].endswith(("::next", "::next_back")) and not any(o == t for o in out):
+                    out.append(t)
+                for x in t:
+                    find_opts(x, out)
+            return out
+        opts = []
+        for e in I.events:
+            find_opts(e, opts)
+        if val is not None:
+            find_opts(val, opts)
+        firsts = [o for o in opts if o[1].endswith("::next")]
+        lasts = [o for o in opts if o[1].endswith("::next_back")]
+        if len(firsts) != 1 or len(lasts) != 1:
+            raise sym.Unsupported(f"expected one first-character and one last-character probe, found {len(firsts)}/{len(lasts)}")
+        FIRST, LAST = firsts[0], lasts[0]
+        bad = []
+        for F, WF, L, WL in itertools.product((False, True), repeat=4):
+            if (not F and WF) or (not L and WL) or (F != L):
+                continue      # a string has a first character iff it has a last one
+
+            def oracle(t, F=F, WF=WF, L=L, WL=WL):
+                if t[0] == "is" and t[2] == sym.SOME and t[1] in (FIRST, LAST):
+                    return F if t[1] == FIRST else L
+                if t[0] == "app" and t[1].endswith("::is_whitespace") and len(t[2]) == 1:
+                    a = t[2][0]
+                    if C02_contains(a, FIRST):
+                        return WF
+                    if C02_contains(a, LAST):
+                        return WL
+                return None
+            evs, x = sym.taken_path(I.events, oracle)
+            writes = [e for e in evs if e[0] == "sink" and e[1] == "write"]
+            if len(writes) != 1:
+                bad.append(((F, WF, L, WL), f"{len(writes)} writes"))
+                continue
+            arg = writes[0][2][1][-1]
+            # the event written may itself be a phi over the decision
+            while arg[0] == "phi":
+                for cnd, alt in arg[1]:
+                    if sym.eval_bool(cnd, oracle):
+                        arg = alt
+                        break
+                else:
+                    break
+            kind = "cdata" if (arg[0] == "app" and arg[1].endswith("::cdata")) else ("characters" if (arg[0] == "app" and arg[1].endswith("::characters")) else "?")
+            want = "cdata" if ((F and WF) or (L and WL)) else "characters"
+            if kind != want or arg[2][:1] != (vt,):
+                bad.append(((F, WF, L, WL), kind))
+        ok = not bad
+        rows = {str(k): v for k, v in bad}
+    except (sym.Unsupported, sym.Undetermined, core.AnalysisError) as e:
+        rows = {"error": f"outside the symbolic model: {e}"}
     if ok:
         c.ok(R, "cdata-iff-outer-whitespace")
     else:
-        c.violation(R, "cdata|decision", f"write_characters_or_cdata: CDATA must be chosen iff the first or last character is whitespace; extracted rows {rows}", fn.sp, instance="cdata-iff-outer-whitespace")
+        c.violation(R, "cdata|decision", f"write_characters_or_cdata: CDATA must be chosen iff the first or last character is whitespace; differing cases (first exists, first is ws, last exists, last is ws) -> written: {rows}", fn.sp, instance="cdata-iff-outer-whitespace")
     fn = common.find_fn(prog, r"deserializer_core::XmlEventReader.*::read_characters$")
     loops = [n for n in core.walk_fn(fn) if n.get("k") == "Loop" and n.get("src") == "While"]
     ok = False
